@@ -1,5 +1,5 @@
 """C12 - arrays, maps and sets behind handles behave like their plain counterparts (reduced scope: Rust-implemented commands)."""
-import time
+import time, os
 import z3
 from mirsym import harness as H, solve
 from mirsym.values import *
@@ -40,7 +40,12 @@ def sym_handle_value(ctx, e, name, vcap):
         """a stored value: an arbitrary short string, or a string that is the key of one of the handles"""
         looks = e.fresh_bool('%s.%s.looks_like_handle' % (name, tag)); hx = e.fresh_int('%s.%s.h' % (name, tag), 0, len(HANDLES) - 1)
         return merge(looks, choose(hx, HANDLES), H.sym_str(e, '%s.%s' % (name, tag), vcap))
-    items = [sv_string(ctx, val('item%d' % i)) for i in range(2)]
+    # list items: strings (array, array_push, array_set ...) or the numbers that `range` stores (Number64Bit); the numbers of one list are
+    # increasing (range makes a run of consecutive numbers; later commands can only remove or overwrite them)
+    STRK, N64 = vs.index('String'), vs.index('Number64Bit')
+    isnum = [e.fresh_bool('%s.item%d.is_number' % (name, i)) for i in range(2)]; nums = [e.fresh_int('%s.item%d.n' % (name, i), 0, 9) for i in range(2)]
+    e.assume(z3.Implies(z3.And(isnum[0], isnum[1]), nums[0] < nums[1]))
+    items = [E(SV, zite(isnum[i], N64, STRK), {STRK: [val('item%d' % i)], N64: [nums[i]]}) for i in range(2)]
     lst = V(e.fresh_int(name + '.len', 0, 2), items)
     sk = [val('sk%d' % i) for i in range(2)]
     sp = [e.fresh_bool('%s.sp%d' % (name, i)) for i in range(2)]
@@ -61,6 +66,21 @@ def sym_handle_value(ctx, e, name, vcap):
         elif v == 'SubState': p[i] = [mapv]
         elif v == 'Any': p[i] = [PV(M([]))]
     return E(SV, d, p), dict(list=lst, set=setv, map=mapv, d=d)
+
+
+def item_str(ctx, it):
+    """the string a stored item stands for (a number stored by `range` reads as its decimal form; 0..9 here)"""
+    vs = variants(ctx); STRK, N64 = vs.index('String'), vs.index('Number64Bit')
+    if N64 in it.p and is_sym(it.d): return merge(zeq(it.d, N64), S(1, [48 + it.p[N64][0]]), it.p[STRK][0])
+    if N64 in it.p and it.d == N64: return S(1, [48 + it.p[N64][0]])
+    return it.p[STRK][0]
+
+
+def conc_item(ctx, m, it):
+    """a stored item of a model: its string, or {'num': n} for a number stored by range"""
+    vs = variants(ctx); N64 = vs.index('Number64Bit')
+    if N64 in it.p and solve.model_int(m, it.d) == N64: return {'num': solve.model_int(m, it.p[N64][0])}
+    return solve.model_str(m, it.p[vs.index('String')][0])
 
 
 def map_eq(e, st, A, B):
@@ -167,7 +187,7 @@ def job_command(ctx, jr, cmd, vcap):
             r = pv if r is POISON else merge(tgt[i], pv, r)
         return r
     pidx = str_parse_int(e, rs, idx, 'usize'); iok = zeq(pidx.d, 0); ival = pidx.p[0][0]
-    def item_str(it): k = vs.index('String'); return it.p[k][0]
+    def item_str(it): return globals()['item_str'](ctx, it)
     if fam == 'array':
         L = pick('list'); post = post_of()
         LIST = vs.index('List')
@@ -239,7 +259,7 @@ def job_command(ctx, jr, cmd, vcap):
         def conc_sv(v):
             k = solve.model_int(m, v.d); name = vs[k]
             if name == 'List':
-                l = v.p[k][0]; return ['array', [solve.model_str(m, item_str(x)) for x in l.it[:solve.model_int(m, l.len)]]]
+                l = v.p[k][0]; return ['array', [conc_item(ctx, m, x) for x in l.it[:solve.model_int(m, l.len)]]]
             if name == 'Set': return ['set', [solve.model_str(m, kk) for p, kk, _ in v.p[k][0].ents if solve.model_bool(m, p)]]
             if name == 'SubState': return ['map', {solve.model_str(m, kk): solve.model_str(m, item_str(vv)) for p, kk, vv in v.p[k][0].ents if solve.model_bool(m, p)}]
             return ['other', name]
@@ -308,7 +328,7 @@ def job_creator(ctx, jr, cmd, vcap):
     for i in range(3): exp_cnt = exp_cnt + zite(present[i], 1, 0)
     checks.append(('exactly one handle is added (none on error)', zeq(cnt, exp_cnt)))
     if nv is not POISON and isinstance(nv, (E, U)):
-        def item_str(it): return it.p[STRK][0]
+        def item_str(it): return globals()['item_str'](ctx, it)
         def with_new(fn_):
             return umap(nv, fn_) if not isinstance(nv, U) else zor(*[zand(c_, fn_(x_)) for c_, x_ in nv.alts])
         if cmd == 'array':
@@ -347,9 +367,9 @@ def job_creator(ctx, jr, cmd, vcap):
     def extract(m, o=None):
         def conc_sv(v):
             k = solve.model_int(m, v.d); name = vs[k]
-            def item_str(it): return it.p[STRK][0]
+            def item_str(it): return globals()['item_str'](ctx, it)
             if name == 'List':
-                l = v.p[k][0]; return ['array', [solve.model_str(m, item_str(x)) for x in l.it[:solve.model_int(m, l.len)]]]
+                l = v.p[k][0]; return ['array', [conc_item(ctx, m, x) for x in l.it[:solve.model_int(m, l.len)]]]
             if name == 'Set': return ['set', [solve.model_str(m, kk) for p, kk, _ in v.p[k][0].ents if solve.model_bool(m, p)]]
             if name == 'SubState': return ['map', {solve.model_str(m, kk): solve.model_str(m, item_str(vv)) for p, kk, vv in v.p[k][0].ents if solve.model_bool(m, p)}]
             return ['other', name]
@@ -362,13 +382,173 @@ def job_creator(ctx, jr, cmd, vcap):
     H.finish_job(jr, e, res)
 
 
+
+# ---------------------------------------------------------------------- script-implemented collection commands: their REAL bodies
+SCRIPTED = {
+    # command: (module path, argument kinds, effect)
+    'array_join': ('sdk::std::collections::array_join', ('arr', 'val'), None),
+    'array_contains': ('sdk::std::collections::array_contains', ('arr', 'val'), None),
+    'map_contains_value': ('sdk::std::collections::map_contains_value', ('map', 'val'), None),
+    'map_contains_key': ('sdk::std::collections::map_contains_key', ('map', 'val'), None),
+    'array_is_empty': ('sdk::std::collections::array_is_empty', ('arr',), None),
+    'set_is_empty': ('sdk::std::collections::set_is_empty', ('set',), None),
+    'map_is_empty': ('sdk::std::collections::map_is_empty', ('map',), None),
+    'set_from_array': ('sdk::std::collections::set_from_array', ('arr',), 'new'),
+}
+
+
+SEPARATORS = ['', ',', ' ', '#', '"', '$', '%', '\\', '=', ', ', '\t', 'ab', '${', '-']
+
+
+def calc_model(e):
+    """calc is backed by the evalexpr crate (outside the MIR of this repository): the bodies use it only as `calc <int> - <int>` and
+    `calc <int> + 1`; stub = integer arithmetic on two decimal arguments, anything else is a model-bound obligation"""
+    from mirsym.models import str_parse_int, int_to_str
+    CRES = 'types::command::CommandResult'
+
+    def h_calc(eng, st1, a):
+        c = a[1]; av = c.f[0]
+        if is_sym(av.len) or av.len != 3 or str_concrete(av.it[1]) not in ('-', '+'): raise Abort('calc stub: only <int> -/+ <int> is modelled, got %r' % (av,))
+        x = str_parse_int(eng, st1, av.it[0], 'i64'); y = str_parse_int(eng, st1, av.it[2], 'i64')
+        eng.oblige(st1, zand(zeq(x.d, 0), zeq(y.d, 0)), 'model bound: calc stub needs two decimal integers', 'unwind')
+        xv, yv = x.p[0][0], y.p[0][0]
+        r = xv - yv if str_concrete(av.it[1]) == '-' else xv + yv
+        return E(CRES, 0, {0: [some(int_to_str(eng, st1, r, True))]})
+    e.dyn_impls[('sdk::std::math::calc::CommandImpl', 'run')] = h_calc
+
+
+def job_script(ctx, jr, cmd, vcap):
+    """the output of a script-implemented collection command equals the reference collection's answer: the REAL script.ds body is run
+    (parsed from the constants of the current tree) through AliasCommand::run, eval_instructions and the real commands it uses"""
+    from . import c19
+    vs = variants(ctx); STRK, LIST, SETK, SUB = vs.index('String'), vs.index('List'), vs.index('Set'), vs.index('SubState')
+
+    def oracle(e, rs, rv, args, colls_sym, map_vals, ptab, hents):
+        kind, n, items = colls_sym['coll0']
+        out = rv.p[CONT][0] if CONT in rv.p else None
+        has = zeq(out.d, 1) if out is not None else False
+        outv = out.p[1][0] if out is not None and 1 in out.p else S(0, [])
+        def answers(sv): return zand(zeq(rv.d, CONT), has, str_eq(outv, sv))
+        def yes(c): return answers(merge(c, mk_str('true'), mk_str('false')))
+        cs = []
+        if cmd == 'array_join':
+            sep = args[1]
+            j = merge(zeq(n, 0), S(0, []), merge(zeq(n, 1), items[0], str_concat(str_concat(items[0], sep), items[1])))
+            # an empty result may come back as no value (set without a value)
+            cs.append(('array_join gives the items joined with the separator between each pair', zand(zeq(rv.d, CONT), zor(zand(has, str_eq(outv, j)), zand(znot(has), zeq(j.len, 0))))))
+        elif cmd == 'array_contains':
+            v = args[1]
+            e0 = zand(n >= 1, str_eq(items[0], v)); e1 = zand(n >= 2, str_eq(items[1], v))
+            cs.append(('array_contains gives the first index holding the value, or false', answers(merge(e0, mk_str('0'), merge(e1, mk_str('1'), mk_str('false'))))))
+        elif cmd == 'map_contains_value':
+            v = args[1]; mv = map_vals['coll0']
+            cs.append(('map_contains_value answers whether some key holds the value', yes(zor(zand(n >= 1, str_eq(mv[0], v)), zand(n >= 2, str_eq(mv[1], v))))))
+        elif cmd == 'map_contains_key':
+            v = args[1]
+            cs.append(('map_contains_key answers whether the key is present', yes(zor(zand(n >= 1, str_eq(items[0], v)), zand(n >= 2, str_eq(items[1], v))))))
+        elif cmd.endswith('_is_empty'):
+            cs.append(('%s answers whether the collection has no element' % cmd, yes(zeq(n, 0))))
+        elif cmd == 'set_from_array':
+            f_, nv, _ = map_lookup(e, rs, ptab, outv)
+            def chk(x):
+                if SETK not in x.p: return False
+                sm = x.p[SETK][0]; c_ = 0
+                for p_, _, _ in sm.ents: c_ = c_ + zite(p_, 1, 0)
+                expn = zite(n == 0, 0, zite(n == 1, 1, zite(str_eq(items[0], items[1]), 1, 2)))
+                return zand(zeq(x.d, SETK), zimp(n >= 1, map_lookup(e, rs, sm, items[0])[0]), zimp(n >= 2, map_lookup(e, rs, sm, items[1])[0]), zeq(c_, expn))
+            ok = (umap(nv, chk) if not isinstance(nv, U) else zor(*[zand(c_, chk(x_)) for c_, x_ in nv.alts])) if nv is not POISON and isinstance(nv, (E, U)) else False
+            cs.append(('set_from_array returns a live set holding exactly the distinct items of the array', zand(zeq(rv.d, CONT), has, f_, ok)))
+        return cs
+    # the sizes are enumerated (they steer the body's control flow: one engine run per shape), the contents are symbolic
+    import itertools
+    argk = SCRIPTED[cmd][1]; nval = sum(1 for k in argk if k == 'val'); shapes = []
+    for n in range(3):
+        for il in itertools.product(range(vcap + 1), repeat=n):
+            if argk[0] in ('map', 'set') and n == 2 and il == (0, 0): continue       # two equal (empty) keys
+            # array_join's separator is used in condition position inside the body (re-serialised and re-parsed character by character: every
+            # character class forks the whole run): it is taken from a panel of concrete separators, the items stay symbolic
+            vals = [[x] for x in (SEPARATORS if ctx.tier != 'quick' else SEPARATORS[:5] + ['\t', '${', 'ab'])] if cmd == 'array_join' else itertools.product(range(vcap + 1), repeat=nval)
+            for vl in vals: shapes.append((n, list(il) + [0] * (2 - n), list(vl)))
+    for sh in shapes:
+        c19.job_real_body(ctx, jr, cmd, vcap, pid=PID, oracle=oracle, spec=SCRIPTED[cmd], prep=calc_model, sym_map_values=(cmd == 'map_contains_value'), caller_vars=False, shape=sh,
+                          helpers={'array_join': ['sdk::std::collections::array_is_empty'], 'map_contains_value': ['sdk::std::collections::map_is_empty']}.get(cmd, ()))
+        if jr.status == 'inconclusive' or (jr.violations and not os.environ.get('VERIF_ALL_SHAPES')): break
+    jr.bounds = dict(command=cmd, shapes='%d: 0..2 elements, each element and value of 0..%d characters (sizes enumerated, contents symbolic)' % (len(shapes), vcap) + ('; separator from a panel of concrete separators (%d in this tier) out of %r' % (len(set(x[2][0] for x in shapes)), SEPARATORS) if cmd == 'array_join' else ''), body='the real script text, parsed and run by the real code',
+                     stub='calc (evalexpr crate): integer +/- on two decimal arguments')
+
+
+def script_replayer(v):
+    """rebuild the collection with real commands, call the script-implemented command natively, compare its output with the python answer.
+    Values travel through variables (a value is bound once, so binding syntax inside it stays verbatim)"""
+    lines = []; hv = []; cmd = v['cmd']; pv = dict(v.get('caller', {}))
+    def via(name, x):
+        if x == '': return '""'
+        pv[name] = x; return '${%s}' % name
+    for i, (kind, items) in enumerate(v['colls']):
+        var = 'hh%d' % i; hv.append(var)
+        if kind == 'arr': lines.append('%s = array %s' % (var, ' '.join(via('zi%d_%d' % (i, j), x) for j, x in enumerate(items))))
+        elif kind == 'set': lines.append('%s = set_new %s' % (var, ' '.join(via('zi%d_%d' % (i, j), x) for j, x in enumerate(items))))
+        else:
+            lines.append('%s = map' % var)
+            mv = (v.get('map_values') or {}).get('coll%d' % i) or ['v0', 'v1']
+            for j, x in enumerate(items): lines.append('map_put ${%s} %s %s' % (var, via('zi%d_%d' % (i, j), x), via('zv%d_%d' % (i, j), mv[j])))
+    call = []; hi = 0
+    for ai, (a, k) in enumerate(zip(v['args'], v['argkinds'])):
+        if k in ('arr', 'map', 'set'): call.append('${%s}' % hv[hi]); hi += 1
+        else: call.append(via('za%d' % ai, a))
+    lines.append('rr = %s %s' % (cmd, ' '.join(call))); call_line = len(lines)
+    lines.append('ee = get_last_error')
+    if cmd == 'set_from_array': lines += ['ks = is_set ${rr}', 'ns = set_size ${rr}'] + ['m%d = set_contains ${rr} %s' % (j, via('zi0_%d' % j, x)) for j, x in enumerate(v['colls'][0][1])]
+    out = H.replay(dict(mode='sdk', script='\n'.join(lines), vars=pv)); v['native'] = out; v['script'] = lines; v['script_vars'] = pv
+    if out.get('panic'): return (True, 'native panic')
+    if not out.get('ok'):
+        err = out.get('error') or {}
+        if isinstance(err, dict) and err.get('line') == call_line: return (True, 'the call of %s ends the native run: %s' % (cmd, err.get('message')))
+        return (None, 'replay script failed: %r' % (err,))
+    r = out['vars'].get('rr'); items = v['colls'][0][1]; a = v['args']
+    if cmd == 'array_join': exp = a[1].join(items); good = (r or '') == exp
+    elif cmd == 'array_contains': exp = str(items.index(a[1])) if a[1] in items else 'false'; good = r == exp
+    elif cmd == 'map_contains_value':
+        mv = ((v.get('map_values') or {}).get('coll0') or ['v0', 'v1'])[:len(items)]; exp = 'true' if a[1] in mv else 'false'; good = r == exp
+    elif cmd == 'map_contains_key': exp = 'true' if a[1] in items else 'false'; good = r == exp
+    elif cmd.endswith('_is_empty'): exp = 'true' if not items else 'false'; good = r == exp
+    elif cmd == 'set_from_array':
+        exp = 'a set of %d' % len(set(items)); vs_ = out['vars']
+        good = vs_.get('ks') == 'true' and vs_.get('ns') == str(len(set(items))) and all(vs_.get('m%d' % j) == 'true' for j in range(len(items)))
+        r = (r, vs_.get('ks'), vs_.get('ns'))
+    else: return (None, 'no reference for %s' % cmd)
+    return (not good, '%s natively gives %r (last error %r), the reference collection gives %r' % (cmd, r, out['vars'].get('ee'), exp))
+
+
 # ---------------------------------------------------------------------- native replay
+def norm_item(x): return str(x['num']) if isinstance(x, dict) else x
+
+
+def array_lines(var, content, ref):
+    """script lines that build an array with the given items through real commands; {'num': n} items are numbers as stored by `range`
+    (a run of consecutive numbers, thinned out with array_remove / overwritten with array_set); None when not constructible"""
+    isn = [isinstance(x, dict) for x in content]
+    if not any(isn): return ['%s = array' % var] + ['array_push ${%s} %s' % (var, ref(x)) for x in content]
+    if len(content) == 1: return ['%s = range %d %d' % (var, content[0]['num'], content[0]['num'] + 1)]
+    if len(content) == 2:
+        a, b = content
+        if isn[0] and isn[1]:
+            if not a['num'] < b['num']: return None
+            return ['%s = range %d %d' % (var, a['num'], b['num'] + 1)] + ['array_remove ${%s} 1' % var] * (b['num'] - a['num'] - 1)
+        if isn[0]: return ['%s = range %d %d' % (var, a['num'], a['num'] + 1), 'array_push ${%s} %s' % (var, ref(b))]
+        return ['%s = range %d %d' % (var, b['num'] - 1, b['num'] + 1), 'array_set ${%s} 0 %s' % (var, ref(a))]
+    return None
+
+
 def create_replayer(v):
     """rebuild the table, run the creator, then dump what it created and compare with the python model"""
     lines = []; names = {}; tab = v['table']
     for i, (h, (kind, content)) in enumerate(sorted(tab.items())):
         var = 'h%d' % i; names[h] = var
-        if kind == 'array': lines.append('%s = array %s' % (var, ' '.join('"%s"' % esc(x) for x in content)))
+        if kind == 'array':
+            al = array_lines(var, content, lambda x: '"%s"' % esc(x))
+            if al is None: return (None, 'array content not constructible through commands')
+            lines += al
         elif kind == 'set': lines.append('%s = set_new %s' % (var, ' '.join('"%s"' % esc(x) for x in content)))
         elif kind == 'map':
             lines.append('%s = map' % var)
@@ -403,20 +583,26 @@ def create_replayer(v):
 
 def replayer(v):
     if v.get('kind') == 'c12_create': return create_replayer(v)
+    if v.get('kind') == 'script_body': return script_replayer(v)
     """rebuild the table with real commands, run the command, dump every collection, compare with a python model"""
     lines = []; names = {}
     tab = v['table']
     for i, (h, (kind, content)) in enumerate(sorted(tab.items())):
         var = 'h%d' % i; names[h] = var
-        if kind == 'array': lines.append('%s = array' % var)
+        if kind == 'array': lines.append('%s = array' % var) if not any(isinstance(x, dict) for x in content) else None
         elif kind == 'set': lines.append('%s = set_new' % var)
         elif kind == 'map': lines.append('%s = map' % var)
         else: return (None, 'table holds a non-collection handle: not constructible through commands')
     def ref(x): return '${%s}' % names[x] if x in names else '"%s"' % esc(x)      # stored values that are handle keys
     for h, (kind, content) in sorted(tab.items()):
+        if kind == 'array' and any(isinstance(x, dict) for x in content) and any(isinstance(x, str) and x in names for x in content):
+            return (None, 'an array made by range that also stores a handle key: build order not supported by the replay')
+    for h, (kind, content) in sorted(tab.items()):
         var = names[h]
         if kind == 'array':
-            for x in content: lines.append('array_push ${%s} %s' % (var, ref(x)))
+            al = array_lines(var, content, ref)
+            if al is None: return (None, 'array content not constructible through commands')
+            lines += al if any(isinstance(x, dict) for x in content) else al[1:]
         elif kind == 'set':
             for x in content: lines.append('set_put ${%s} %s' % (var, ref(x)))
         elif kind == 'map':
@@ -435,7 +621,7 @@ def replayer(v):
         if kind == 'set': lines.append('n_%s = set_size ${%s}' % (var, var))
         if kind == 'map': lines.append('n_%s = map_size ${%s}' % (var, var))
     # expected contents after the command (python model of the reference collections), dumped natively element by element
-    exp_content = {h: (list(c) if k_ != 'map' else dict(c)) for h, (k_, c) in tab.items()}
+    exp_content = {h: ([norm_item(x) for x in c] if k_ != 'map' else dict(c)) for h, (k_, c) in tab.items()}
     cmd_ = v['cmd']; tk_ = tab.get(harg, [None])[0]
     if tk_ is not None and cmd_.split('_')[0] == tk_:
         c_ = exp_content[harg]
@@ -484,6 +670,17 @@ def replayer(v):
             if not (r == 'false' and err): problems.append('wrong-kind/unknown handle did not give an error: r=%r' % r)
         else:
             c = tab[harg][1]
+            # the command's own result
+            cn = [norm_item(x) for x in c] if tkind != 'map' else dict(c)
+            NOTHING = object(); exp_r = NOTHING
+            if cmd == 'array_pop': exp_r = cn[-1] if cn else None
+            elif cmd == 'array_get' and a[1].isdigit(): exp_r = cn[int(a[1])] if int(a[1]) < len(cn) else None
+            elif cmd in ('array_length', 'map_size', 'set_size'): exp_r = str(len(cn))
+            elif cmd == 'map_get': exp_r = cn.get(a[1])
+            elif cmd == 'set_contains': exp_r = 'true' if a[1] in cn else 'false'
+            if exp_r is not NOTHING:
+                exp_n = vars_.get(names[exp_r]) if isinstance(exp_r, str) and exp_r in names else exp_r
+                if r != exp_n: problems.append('%s returned %r natively (last error %r), the reference collection gives %r' % (cmd, r, err, exp_n))
             if cmd == 'array_push': exp_sizes[harg] += 2
             if cmd == 'array_pop' and c: exp_sizes[harg] -= 1
             if cmd == 'array_clear' or cmd == 'map_clear' or cmd == 'set_clear': exp_sizes[harg] = 0
@@ -518,10 +715,12 @@ def main(tier, seed):
     vcap = 2 if tier == 'quick' else 3
     for c in CMD: chk.job(job_command, c, cmd=c, vcap=vcap)
     for c in CREATORS: chk.job(job_creator, 'create:' + c, cmd=c, vcap=vcap)
+    for c in SCRIPTED: chk.job(job_script, 'script:' + c, cmd=c, vcap=1 if tier == 'quick' else 2)
     chk.bounds = dict(commands=sorted(CMD), live_handles='<= 3 of symbolic kind', collection_size='<= 2 (+2 pushed)', value_chars=vcap)
-    chk.assumptions = ['one step per command from an arbitrary handle table (any history of the script-level commands yields such a table); list items are strings',
+    chk.assumptions = ['one step per command from an arbitrary handle table (any history of the script-level commands yields such a table); list items are strings or the numbers `range` stores (Number64Bit 0..9, increasing within one list)',
                        'put_handle: the random key is an arbitrary non-live key (distinctness of live handles rests on the RNG)',
-                       'script-implemented collection commands (array_contains, array_join, array_concat, set_from_array, map_contains_value, *_is_empty, map_contains_key, map_keys...) are not covered',
+                       'script-implemented collection commands (script:* jobs): the REAL script.ds bodies of array_join, array_contains, map_contains_value, map_contains_key, set_from_array and *_is_empty run through '
+                       'AliasCommand::run / eval_instructions (explored per script line) and the real commands they call; calc (evalexpr crate) is a stub for integer +/-; array_concat is not covered (too slow)',
                        'HashMap/HashSet modelled as association lists']
     results = chk.run()
     return chk.finish(results, 'every obligation is a solver query over all handle tables, handle arguments and values within the bounds')
